@@ -343,10 +343,13 @@ def check_c01(tier, pid="C01"):
 # ================================================================================ C05 / C19 (cutoff at every poll)
 def check_cutoff(tier, pid):
     sc = SolveCheck(pid, tier, "proof")
-    if pid == "C05": sc.proofs("C05+C05u", ["C05_seq_anytime_sound", "C05_seq_lb_le_ub", "C05_sequential_anytime_bounds_sound", "C05_holds_on_table_family"])
+    if pid == "C05": sc.proofs("C05+C05u", ["C05_seq_anytime_sound", "C05_seq_lb_le_ub", "C05_sequential_anytime_bounds_sound", "C05_holds_on_table_family",
+                                            "C05_sequential_anytime_bounds_sound_NoDupFringe", "C05_holds_on_table_family_NoDupFringe"])
     if pid == "C19": sc.proofs("C19+C19u", ["C19_cutoff_monotone", "C19_cutoff_monotone_any_later_point", "C19_eventually_the_uninterrupted_run",
                                        "C19_compile_prefix_determinism", "C19_bounds_monotone_in_cutoff", "C19_bounds_monotone_any_later_cutoff",
-                                       "C19_large_cutoff_is_uninterrupted_run"])
+                                       "C19_large_cutoff_is_uninterrupted_run", "C19_bounds_monotone_in_cutoff_NoDupFringe",
+                                       "C19_bounds_monotone_any_later_cutoff_NoDupFringe", "C19_large_cutoff_is_uninterrupted_run_NoDupFringe",
+                                       "C19_holds_on_table_family_NoDupFringe", "C19_example_with_coalescing"])
     if not sc.build(): return sc.chk.finish()
     n = 25 * (1 if tier == "quick" else 10)
     insts = gen_instances(sc.rng, n, "plain")
@@ -426,8 +429,8 @@ def check_cutoff(tier, pid):
                    "after the last poll; Coq solver model compared at every k. Theorems: Assembly.C19_monotone(_gen), C19_eventually_full (via SolverCutoff.compile_agree)."}[pid]
     return sc.finish(RULE + "; cutoff firing at every poll index of the uninterrupted run", expl,
                      ["parallel part of C05: no full theorem (partial lemmas D3_*; scheduled runs with cutoffs)",
-                      "cache / dominance / pooled / NoDupFringe configurations: correspondence + oracle only"] if pid == "C05"
-                     else ["cache / dominance / pooled / NoDupFringe configurations: correspondence + oracle only"])
+                      "cache / dominance / pooled configurations: correspondence + oracle only"] if pid == "C05"
+                     else ["cache / dominance / pooled configurations: correspondence + oracle only"])
 
 
 # ================================================================================ C14 (primal)
